@@ -107,6 +107,9 @@ def run(ck):
     # sigmas whose square is not a double (a constant of the law computed in double instead of at the working precision moves every barrier by
     # about 2^-54 relative: invisible below lambda ~ 50, far above the bound for the usual lambda)
     tvsets += [((3.19, 128, 1024, "0", "d"), 8, 1), ((1.1, 96, 16, "0.3", "d"), 16, 1), ((8.01, 90, 1, "-1.5", "d"), 16, 2)]
+    # centres given with more than 53 bits that lie within half a double ulp of a non-zero integer (mpfr_t constructor): a decision taken on the
+    # centre rounded to double (is it an integer? which side of the integer?) is wrong for them
+    tvsets += [((3.0, 128, 1024, "3.000000000000000000867361737988403547205962240695953369140625", "m:200"), 8, 1), ((3.0, 128, 1024, "-2.9999999999999999999999999999992111390947789881945882714347172137703267935648909769952297210693359375", "m:200"), 16, 2), ((20.0, 128, 16384, "1000.00000000000000088817841970012523233890533447265625", "m:200"), 16, 1)]
     import math
     def tv_one(item):
         prm, inb, depth = item
